@@ -90,6 +90,7 @@ package action
 //@   ensures [only-own] Kdeleted == old(Kdeleted) || Kdeleted == store(old(Kdeleted), h.Manifest, true)
 //@   ensures [deleted-when-policy] result == nil && hasPolicy(h, policy) && h.Kind != "CustomResourceDefinition" ==> Kdeleted[h.Manifest]
 //@   ensures [hooks-not-started] Kunwatched == old(Kunwatched) && Kcreated == old(Kcreated)
+//@   ensures [touches-only-hook-resources] forall l kube.ResourceList :: KtouchedLists[l] && !old(KtouchedLists)[l] ==> fresh(l)
 
 //@ func (*Configuration).deleteHooksByPolicy
 //@   props C12
@@ -97,15 +98,18 @@ package action
 //@   ensures [all] result == nil ==> forall j int :: 0 <= j && j < len(hooks) && hasPolicy(hooks[j], policy) && hooks[j].Kind != "CustomResourceDefinition" ==> Kdeleted[hooks[j].Manifest]
 //@   ensures [hooks-not-started] Kunwatched == old(Kunwatched) && Kcreated == old(Kcreated)
 //@   ensures [monotone] forall m string :: old(Kdeleted)[m] ==> Kdeleted[m]
+//@   ensures [touches-only-hook-resources] forall l kube.ResourceList :: KtouchedLists[l] && !old(KtouchedLists)[l] ==> fresh(l)
 //@   loop 1 invariant forall j int :: 0 <= j && j < #iter && hasPolicy(hooks[j], policy) && hooks[j].Kind != "CustomResourceDefinition" ==> Kdeleted[hooks[j].Manifest]
 //@   loop 1 invariant Kunwatched == old(Kunwatched) && Kcreated == old(Kcreated)
 //@   loop 1 invariant forall m string :: old(Kdeleted)[m] ==> Kdeleted[m]
+//@   loop 1 invariant [only-hooks] forall l kube.ResourceList :: KtouchedLists[l] && !old(KtouchedLists)[l] ==> fresh(l)
 
 //@ func (*Configuration).execHook
 //@   props C12
-//@   requires cfg != nil && cfg.KubeClient != nil && rl != nil && hooksNonNil(rl.Hooks)
+//@   requires cfgReady(cfg) && rl != nil && rl.Info != nil && hooksNonNil(rl.Hooks)
 //@   requires [none-in-flight] forall m string :: !Kunwatched[m]
 //@   ensures [gate] result == nil ==> forall m string :: !Kunwatched[m]
+//@   ensures [touches-only-hook-resources] forall l kube.ResourceList :: KtouchedLists[l] && !old(KtouchedLists)[l] ==> fresh(l)
 //@   ensures [hooks-kept] len(rl.Hooks) == old(len(rl.Hooks)) && (forall j int :: 0 <= j && j < len(rl.Hooks) ==> rl.Hooks[j] == old(rl.Hooks[j]))
 //@   ensures [config-kept] cfg.KubeClient == old(cfg.KubeClient) && cfg.Releases == old(cfg.Releases)
 //@   loop 1 invariant [sel] hooksNonNil(executingHooks) && (forall j int :: 0 <= j && j < len(executingHooks) ==> hasEvent(executingHooks[j], hook))
@@ -117,6 +121,7 @@ package action
 //@   loop 2 invariant [own-array2] fresh(executingHooks)
 //@   loop 2 invariant [h] h != nil
 //@   loop 3 invariant [nonnil] hooksNonNil(executingHooks)
+//@   loop 3 invariant [only-hooks3] forall l kube.ResourceList :: KtouchedLists[l] && !old(KtouchedLists)[l] ==> fresh(l)
 //@   loop 3 invariant [hooks-kept3] len(rl.Hooks) == old(len(rl.Hooks)) && (forall j int :: 0 <= j && j < len(rl.Hooks) ==> rl.Hooks[j] == old(rl.Hooks[j]))
 //@   loop 3 invariant [config-kept3] cfg.KubeClient == old(cfg.KubeClient) && cfg.Releases == old(cfg.Releases)
 //@   loop 3 invariant [selected] forall j int :: 0 <= j && j < len(executingHooks) ==> hasEvent(executingHooks[j], hook)
@@ -124,6 +129,7 @@ package action
 //@   loop 3 invariant [one-at-a-time] forall m string :: !Kunwatched[m]
 //@   loop 3 invariant [default-policy] forall j int :: 0 <= j && j < #iter ==> len(executingHooks[j].DeletePolicies) > 0
 //@   loop 4 invariant [quiet4] forall m string :: !Kunwatched[m]
+//@   loop 4 invariant [only-hooks4] forall l kube.ResourceList :: KtouchedLists[l] && !old(KtouchedLists)[l] ==> fresh(l)
 //@   loop 4 invariant [hooks-kept4] len(rl.Hooks) == old(len(rl.Hooks)) && (forall j int :: 0 <= j && j < len(rl.Hooks) ==> rl.Hooks[j] == old(rl.Hooks[j]))
 //@   loop 4 invariant [config-kept4] cfg.KubeClient == old(cfg.KubeClient) && cfg.Releases == old(cfg.Releases)
 //@   loop 4 invariant [nonnil4] hooksNonNil(executingHooks) && i < len(executingHooks)
@@ -283,3 +289,45 @@ package action
 //@   modifies GownershipChecked, GownershipList
 //@   ensures result1 == nil ==> GownershipChecked && GownershipList == resources
 //@   ensures Kmutated == old(Kmutated) && Dwritten == old(Dwritten)
+
+// ---- C03 / C12: failure containment and hook gates of install, upgrade and rollback
+
+//@ func (*Configuration).recordRelease
+//@   props C03
+//@   requires cfgReady(cfg) && r != nil && r.Info != nil
+//@   ensures [took-effect-or-not] Dst == store(old(Dst), mkkey(r.Name, r.Version), r.Info.Status) || Dst == old(Dst)
+//@   ensures [frame] Dex == old(Dex) && Dname == old(Dname) && Dver == old(Dver) && Kmutated == old(Kmutated) && Kunwatched == old(Kunwatched) && Kdeleted == old(Kdeleted) && Kcreated == old(Kcreated)
+
+//@ func (*Install).performInstall
+//@   props C03 C12
+//@   requires i != nil && cfgReady(i.cfg) && rel != nil && rel.Info != nil && hooksNonNil(rel.Hooks) && (forall m string :: !Kunwatched[m])
+//@   ensures [C12] [pre-hook-failure-touches-no-release-resource] at "failed pre-install" (KtouchedLists[resources] ==> old(KtouchedLists)[resources]) && (KtouchedLists[toBeAdopted] ==> old(KtouchedLists)[toBeAdopted]) && result1 != nil
+//@   ensures [C12] [post-hook-failure-fails-the-operation] at "failed post-install" result1 != nil
+//@   ensures [success-marks-deployed] result1 == nil ==> result0 == rel && rel.Info.Status == "deployed"
+//@   ensures [failure-returns-the-release] result1 != nil ==> result0 == rel
+
+//@ func (*Install).failRelease
+//@   props C03
+//@   requires i != nil && cfgReady(i.cfg) && rel != nil && rel.Info != nil && err != nil
+//@   ensures [marked-failed] !old(i.Atomic) ==> rel.Info.Status == "failed"
+//@   ensures [reports-error] result1 != nil && result0 == rel
+//@   ensures [non-atomic-records-failed] !old(i.Atomic) ==> Dst == store(old(Dst), mkkey(rel.Name, rel.Version), "failed") || Dst == old(Dst)
+
+//@ func (*Upgrade).failRelease
+//@   props C03
+//@   requires u != nil && cfgReady(u.cfg) && rel != nil && rel.Info != nil && err != nil && ledgerWF() && (forall m string :: !Kunwatched[m])
+//@   ensures [marked-failed] !old(u.Atomic) ==> rel.Info.Status == "failed"
+//@   ensures [reports-error] result1 != nil && result0 == rel
+//@   ensures [no-cleanup-without-flag] !old(u.CleanupOnFail) && !old(u.Atomic) ==> Kdeleted == old(Kdeleted) && Kmutated == old(Kmutated)
+//@   ensures [cleanup-deletes-only-created] old(u.CleanupOnFail) && !old(u.Atomic) ==> Kdeleted == old(Kdeleted) || Kdeleted == store(old(Kdeleted), builtFrom(created), true)
+//@   loop 1 invariant Kdeleted == store(old(Kdeleted), builtFrom(created), true) && rel.Info.Status == "failed"
+
+//@ func NewRollback
+//@   props C03
+//@   ensures result != nil && fresh(result) && result.cfg == cfg && !result.DryRun
+
+//@ func (*History).Run
+//@   props C03
+//@   requires h != nil && cfgReady(h.cfg)
+//@   ensures [sound] err == nil ==> len(result) > 0 && (forall j int :: 0 <= j && j < len(result) ==> stored(result[j]) && result[j].Name == name)
+//@   ensures [readonly] Dex == old(Dex) && Dst == old(Dst) && Dwritten == old(Dwritten) && Dname == old(Dname) && Dver == old(Dver) && Kmutated == old(Kmutated) && Kunwatched == old(Kunwatched) && Kdeleted == old(Kdeleted)
